@@ -1,6 +1,8 @@
 package lhsim
 
 import (
+	"runtime"
+	"strings"
 	"context"
 	"crypto/sha256"
 	"encoding/hex"
@@ -190,6 +192,7 @@ type Node struct {
 	spiStep       int
 	dueTrigger    *hv
 	logYieldIn    int
+	logYieldTrace bool
 	simLogger     bool
 	dueStep       int
 	spiCalls      int
@@ -203,6 +206,9 @@ type Node struct {
 	syncPre       *preState
 	wakeAt        time.Duration // a timed wait inside the library ends by then (committee retry)
 	wakeSeq       uint64
+	workerNotedEpoch int
+	mainParked    *Gate          // the node's main loop is parked at a scheduling point (H4)
+	pendingSyncs  []*pendingSync // UpdateState calls blocked on a parked main loop
 	samples       []*sampleRec // State() snapshots taken by a concurrent consumer thread (C13)
 
 	// per-instance oracle state
@@ -219,24 +225,21 @@ func (n *Node) height() uint64 {
 	if n.lh == nil {
 		return 0
 	}
-	n.w.ys.noPark++ // harness code reading the library's state (possibly on a library goroutine, inside a fake): never a preemption point
-	defer func() { n.w.ys.noPark-- }()
+	defer n.w.quiet()() // harness code reading the library's state (possibly on a library goroutine, inside a fake): never a preemption point
 	return uint64(n.lh.State().Height())
 }
 func (n *Node) view() uint64 {
 	if n.lh == nil {
 		return 0
 	}
-	n.w.ys.noPark++
-	defer func() { n.w.ys.noPark-- }()
+	defer n.w.quiet()()
 	return uint64(n.lh.State().View())
 }
 func (n *Node) hv() hv {
 	if n.lh == nil {
 		return hv{}
 	}
-	n.w.ys.noPark++
-	defer func() { n.w.ys.noPark-- }()
+	defer n.w.quiet()()
 	x := n.lh.State().HeightView()
 	return hv{uint64(x.Height()), uint64(x.View())}
 }
@@ -505,8 +508,11 @@ func (w *World) startNode(n *Node) {
 	n.inbox, n.curMsg, n.wm, n.maxSync, n.updates, n.shuttingDown, n.dueTrigger = nil, nil, hv{}, -1, nil, false, nil
 	n.ctx, n.cancel = context.WithCancel(context.Background())
 	n.lh = leanhelix.NewLeanHelix(cfg, n.onCommit, n.onNewRound)
+	n.mainParked, n.pendingSyncs = nil, nil
+	w.ys.starting = n
 	n.lh.Run(n.ctx)
 	simWait() // the new loops come to rest before the harness touches anything else
+	w.ys.starting = nil
 	w.ev("start n%d epoch%d", n.idx, n.epoch)
 }
 
@@ -515,6 +521,7 @@ func (w *World) stopNode(n *Node) {
 	if !n.alive {
 		return
 	}
+	w.forceReleaseMain(n) // see cancelFocus: never cancel under a main loop that is parked mid-iteration
 	n.alive = false
 	w.ev("stop n%d", n.idx)
 	n.cancel()
@@ -531,10 +538,13 @@ func (w *World) stopNode(n *Node) {
 	w.flights = keep
 }
 
+// releaseAllGates releases the node's held consumer calls / parked goroutines one at a time, each coming to rest
+// before the next is released (two goroutines released in the same breath would run in an order nobody controls).
 func (w *World) releaseAllGates(n *Node) {
 	for _, g := range append([]*Gate(nil), n.gates...) {
 		select {
 		case g.release <- GateFail:
+			simWait()
 		default:
 		}
 	}
@@ -557,12 +567,12 @@ func (w *World) quiesce() {
 		for _, n := range w.nodes {
 			if n.ctrl != nil && n.ctrl.autoStep() {
 				moved = true
+				simWait() // one worker at a time: two workers released together run in an order nobody controls
 			}
 		}
 		if !moved {
 			return
 		}
-		simWait()
 	}
 	panic("quiesce: worker controllers did not settle")
 }
@@ -649,6 +659,7 @@ func (w *World) deliver(f *Flight) {
 	if n.byz || !n.alive {
 		return
 	}
+	w.forceReleaseMain(n)
 	m := Decode(f.raw)
 	rec := &DeliveredRec{seq: w.seq, step: w.step, raw: f.raw, msg: m, origin: f.from, honest: f.honest, sent: f.sent, tag: f.tag}
 	n.obs.delivered = append(n.obs.delivered, rec)
@@ -737,7 +748,7 @@ func RunBubble(t *testing.T, ch *Chooser, cfg *RunConfig, tracing bool, scen Sce
 					if hp, ok := r.(harnessPanic); ok {
 						res.HarnessErr = string(hp)
 					} else {
-						res.HarnessErr = fmt.Sprintf("panic in scenario: %v", r)
+						res.HarnessErr = fmt.Sprintf("panic in scenario: %v | %s", r, compactStack())
 					}
 				}
 			}()
@@ -821,6 +832,7 @@ func (w *World) shutdownAll() {
 		for _, n := range w.nodes {
 			if n.ctrl != nil && n.ctrl.shutdownStep() {
 				moved = true
+				simWait()
 			}
 			if len(n.gates) > 0 {
 				w.releaseAllGates(n)
@@ -902,4 +914,27 @@ type sampleRec struct {
 	checked bool
 	epoch   int
 	step    int
+}
+
+// compactStack: the harness frames of the current stack on one line (for harness-error reports).
+func compactStack() string {
+	buf := make([]byte, 1<<14)
+	buf = buf[:runtime.Stack(buf, false)]
+	var out []string
+	for _, l := range strings.Split(string(buf), "\n") {
+		if strings.HasPrefix(l, "\t") && strings.Contains(l, "/lhsim/") {
+			l = strings.TrimSpace(l)
+			if i := strings.LastIndex(l, "/"); i >= 0 {
+				l = l[i+1:]
+			}
+			if j := strings.Index(l, " "); j > 0 {
+				l = l[:j]
+			}
+			out = append(out, l)
+			if len(out) == 8 {
+				break
+			}
+		}
+	}
+	return strings.Join(out, " < ")
 }
